@@ -13,6 +13,11 @@ namespace libphysica
 // 1.1. Uniform distribution
 double PDF_Uniform(double x, double x_min, double x_max)
 {
+	if(x_min >= x_max)
+	{
+		std::cerr << "Error in libphysica::PDF_Uniform(): The domain is empty (x_min=" << x_min << ", x_max=" << x_max << ")." << std::endl;
+		std::exit(EXIT_FAILURE);
+	}
 	if(x < x_min || x > x_max)
 		return 0.0;
 	else
@@ -21,6 +26,11 @@ double PDF_Uniform(double x, double x_min, double x_max)
 
 double CDF_Uniform(double x, double x_min, double x_max)
 {
+	if(x_min >= x_max)
+	{
+		std::cerr << "Error in libphysica::CDF_Uniform(): The domain is empty (x_min=" << x_min << ", x_max=" << x_max << ")." << std::endl;
+		std::exit(EXIT_FAILURE);
+	}
 	if(x < x_min)
 		return 0.0;
 	else if(x > x_max)
@@ -32,21 +42,41 @@ double CDF_Uniform(double x, double x_min, double x_max)
 // 1.2 Normal distribution
 double PDF_Gauss(double x, double mu, double sigma)
 {
+	if(sigma <= 0.0)
+	{
+		std::cerr << "Error in libphysica::PDF_Gauss(): Standard deviation is not positive (sigma=" << sigma << ")." << std::endl;
+		std::exit(EXIT_FAILURE);
+	}
 	return 1.0 / sqrt(2.0 * M_PI) / sigma * exp(-pow((x - mu) / sigma, 2.0) / 2.0);
 }
 
 double CDF_Gauss(double x, double mu, double sigma)
 {
+	if(sigma <= 0.0)
+	{
+		std::cerr << "Error in libphysica::CDF_Gauss(): Standard deviation is not positive (sigma=" << sigma << ")." << std::endl;
+		std::exit(EXIT_FAILURE);
+	}
 	return 0.5 * (1.0 + erf((x - mu) / (sqrt(2) * sigma)));
 }
 
 double Quantile_Gauss(double p, double mu, double sigma)
 {
+	if(sigma < 0.0)
+	{
+		std::cerr << "Error in libphysica::Quantile_Gauss(): Standard deviation is negative (sigma=" << sigma << ")." << std::endl;
+		std::exit(EXIT_FAILURE);
+	}
 	return mu + sqrt(2.0) * sigma * Inv_Erf(2.0 * p - 1.0);
 }
 
 double PDF_Gauss_2D(double x, double y, std::pair<double, double>& mean, std::pair<double, double>& sigma)
 {
+	if(sigma.first <= 0.0 || sigma.second <= 0.0)
+	{
+		std::cerr << "Error in libphysica::PDF_Gauss_2D(): Standard deviation is not positive (sigma=(" << sigma.first << "," << sigma.second << "))." << std::endl;
+		std::exit(EXIT_FAILURE);
+	}
 	double x_diff = x - mean.first;
 	double y_diff = y - mean.second;
 	return 0.5 / M_PI / sigma.first / sigma.second * std::exp(-0.5 * (x_diff * x_diff / sigma.first / sigma.first + y_diff * y_diff / sigma.second / sigma.second));
@@ -133,6 +163,11 @@ double Inv_CDF_Poisson(unsigned int observed_events, double cdf)
 // 1.5 Chi-square distribution
 double PDF_Chi_Square(double x, double dof)
 {
+	if(dof < 0.0)
+	{
+		std::cerr << "Error in libphysica::PDF_Chi_Square(): Number of degrees of freedom is negative (dof=" << dof << ")." << std::endl;
+		std::exit(EXIT_FAILURE);
+	}
 	if(x <= 0 || dof < 1.0e-6)
 		return 0.0;
 	else
@@ -141,6 +176,11 @@ double PDF_Chi_Square(double x, double dof)
 
 double CDF_Chi_Square(double x, double dof)
 {
+	if(dof < 0.0)
+	{
+		std::cerr << "Error in libphysica::CDF_Chi_Square(): Number of degrees of freedom is negative (dof=" << dof << ")." << std::endl;
+		std::exit(EXIT_FAILURE);
+	}
 	if(x < 0)
 		return 0.0;
 	else if(fabs(dof) < 1e-6)
@@ -246,6 +286,11 @@ double CDF_Maxwell_Boltzmann(double x, double a)
 // 2. Likelihoods
 double Log_Likelihood_Poisson(double N_prediction, unsigned long int N_observed, double expected_background)
 {
+	if(N_prediction < 0.0 || expected_background < 0.0)
+	{
+		std::cerr << "Error in libphysica::Log_Likelihood_Poisson(): Expected number of events is negative (N_prediction=" << N_prediction << ", expected_background=" << expected_background << ")." << std::endl;
+		std::exit(EXIT_FAILURE);
+	}
 	// No observed events: the likelihood is exp(-(s+b)), also for s+b = 0 (0*log(0) would be nan, PMF_Poisson(0,0) is 1).
 	if(N_observed == 0)
 		return -(N_prediction + expected_background);
@@ -291,18 +336,33 @@ double Likelihood_Poisson_Binned(const std::vector<double>& N_prediction_binned,
 // 3.1 Sample from specific distribution
 double Sample_Uniform(std::mt19937& PRNG, double x_min, double x_max)
 {
+	if(x_max < x_min)
+	{
+		std::cerr << "Error in libphysica::Sample_Uniform(): The domain is empty (x_min=" << x_min << ", x_max=" << x_max << ")." << std::endl;
+		std::exit(EXIT_FAILURE);
+	}
 	std::uniform_real_distribution<double> dis(x_min, x_max);
 	return dis(PRNG);
 }
 
 double Sample_Gauss(std::mt19937& PRNG, double mean, double standard_deviation)
 {
+	if(standard_deviation < 0.0)
+	{
+		std::cerr << "Error in libphysica::Sample_Gauss(): Standard deviation is negative (standard_deviation=" << standard_deviation << ")." << std::endl;
+		std::exit(EXIT_FAILURE);
+	}
 	double xi = Sample_Uniform(PRNG, 0.0, 1.0);
 	return Quantile_Gauss(xi, mean, standard_deviation);
 }
 
 unsigned int Sample_Poisson(std::mt19937& PRNG, double expectation_value)	// Algorithm from https://en.wikipedia.org/wiki/Poisson_distribution
 {
+	if(expectation_value < 0.0)
+	{
+		std::cerr << "Error in libphysica::Sample_Poisson(): Expectation value is negative (expectation_value=" << expectation_value << ")." << std::endl;
+		std::exit(EXIT_FAILURE);
+	}
 	double STEP		   = 500;
 	double lambda_left = expectation_value;
 	int k			   = 0;
